@@ -12,6 +12,10 @@
 //!   -> `<tokens> <status> <printed> <detail> <dump of the re-parsed tree | NONE>` with status
 //!   `OK | RF | TD | NF | WS | ERR:<msg>`
 //! * `parse <source>` -> `<tokens> <dump>` | `P <msg>`
+//! * `primops` -> the canonical names (space separated) of every `PrimOp` value the harness knows
+//!   (its table is an exhaustive match: a new constructor does not compile)
+//! * `primop <canonical name>` -> `<canonical name> <Debug> <Display> <arity> <Prefix|Infix|Postfix>`,
+//!   all computed by the implementation on the value itself (nothing is read from the source text)
 use nickel_lang_parser::{
     ErrorTolerantParser,
     ast::{
@@ -24,7 +28,7 @@ use nickel_lang_parser::{
 };
 use std::io::{BufRead, Write};
 use std::panic::{AssertUnwindSafe, catch_unwind};
-use verif_harness::c14::{Builder, DumpOpts, Sx, dump_term, tokens, tokens_keep_empty};
+use verif_harness::c14::{ALL_OPS, Builder, DumpOpts, Sx, dump_term, op_of_name, tokens, tokens_keep_empty};
 use verif_harness::eval::{Opts, run, unescape};
 
 fn escape(s: &str) -> String {
@@ -204,12 +208,28 @@ fn do_parse(src: &str) -> String {
     }
 }
 
+fn do_primop(name: &str) -> String {
+    match op_of_name(&Sx::S(name.to_string())) {
+        Ok(op) => format!(
+            "{}\t{}\t{}\t{}\t{:?}",
+            escape(name),
+            escape(&format!("{op:?}")),
+            escape(&format!("{op}")),
+            op.arity(),
+            op.positioning()
+        ),
+        Err(e) => format!("ERR:{}", escape(&e)),
+    }
+}
+
 fn handle(line: &str) -> String {
     let fields: Vec<&str> = line.split('\t').collect();
     match fields[0] {
         "rt" if fields.len() == 4 => do_rt(fields[1], &unescape(fields[2]), &unescape(fields[3])),
         "build" if fields.len() == 2 => do_build(&unescape(fields[1])),
         "parse" if fields.len() == 2 => do_parse(&unescape(fields[1])),
+        "primops" => ALL_OPS.join(" "),
+        "primop" if fields.len() == 2 => do_primop(&unescape(fields[1])),
         _ => "ERR:bad request".into(),
     }
 }
